@@ -47,6 +47,7 @@ type sigEvent struct {
 	H       int      `json:"h"`
 	N       int      `json:"n"`
 	Outcome []string `json:"outcome"`
+	SType   []string `json:"stype"`
 	IDs     []int    `json:"ids"` // add: the services passed to Add, as they were at that moment
 	Sig     string   `json:"sig"`
 	I       int      `json:"i"`
@@ -64,9 +65,11 @@ func (f *fakeNotifier) Stop(_ chan<- os.Signal)                     {}
 
 // sigWorld is one SignalHandler under test with its fakes and its event log.
 type sigWorld struct {
+	pending  map[string][]int // registrations of indistinguishable types not called yet, ascending
 	mu       sync.Mutex
 	log      []sigEvent
 	outcome  []string
+	stype    []string
 	calls    []int
 	shutSent bool       // a shutdown signal has been put into the channel
 	early    []int      // services called before any shutdown signal was sent
@@ -82,8 +85,67 @@ type fakeSvc struct {
 
 func (s *fakeSvc) Start(_ context.Context) error { panic("harness: Start must not be called") }
 
-func (s *fakeSvc) Shutdown(_ context.Context) error {
-	w := s.w
+func (s *fakeSvc) Shutdown(_ context.Context) error { return s.w.shutdownOf(s.i) }
+
+// Dynamic types of services (SignalHandler.tla, stype): how the interface
+// value compares and hashes must not matter.
+
+// valSvc is a comparable struct registered BY VALUE; all valSvc of a run have
+// equal fields, so they are equal as interface values.  Which registration a
+// call belongs to is decided by the world: the handler owes one call per
+// registration, in reverse order.
+type valSvc struct{ w *sigWorld }
+
+func (s valSvc) Start(_ context.Context) error    { panic("harness: Start must not be called") }
+func (s valSvc) Shutdown(_ context.Context) error { return s.w.shutdownOf(s.w.nextOf("val")) }
+
+// funcSvc is a func adapter: not comparable, not hashable.
+type funcSvc func(ctx context.Context) error
+
+func (f funcSvc) Start(_ context.Context) error      { panic("harness: Start must not be called") }
+func (f funcSvc) Shutdown(ctx context.Context) error { return f(ctx) }
+
+// ncSvc is a struct by value with a func field: not comparable.
+type ncSvc struct {
+	id func() int
+	w  *sigWorld
+}
+
+func (s ncSvc) Start(_ context.Context) error    { panic("harness: Start must not be called") }
+func (s ncSvc) Shutdown(_ context.Context) error { return s.w.shutdownOf(s.id()) }
+
+// zstSvc is a zero-size type; pointers to distinct zero-size variables may be
+// equal.  It has nowhere to keep its world: runs that use it are serialised.
+type zstSvc struct{}
+
+var (
+	zstMu    sync.Mutex
+	zstWorld *sigWorld
+)
+
+func (*zstSvc) Start(_ context.Context) error    { panic("harness: Start must not be called") }
+func (*zstSvc) Shutdown(_ context.Context) error { return zstWorld.shutdownOf(zstWorld.nextOf("zst")) }
+
+// nextOf returns the registration a call on a service of an indistinguishable
+// type belongs to: the latest one not called yet (-2: called more often than
+// registered).
+func (w *sigWorld) nextOf(ty string) int {
+	w.mu.Lock()
+	defer w.mu.Unlock()
+	p := w.pending[ty]
+	if len(p) == 0 {
+		return -2
+	}
+	w.pending[ty] = p[:len(p)-1]
+	return p[len(p)-1]
+}
+
+// shutdownOf is the Shutdown of registration i.
+func (w *sigWorld) shutdownOf(si int) error {
+	s := struct {
+		w *sigWorld
+		i int
+	}{w, si}
 	w.mu.Lock()
 	k := len(w.calls)
 	if k == 0 && len(w.atCall) > 0 {
@@ -100,7 +162,7 @@ func (s *fakeSvc) Shutdown(_ context.Context) error {
 		w.trySendLocked(w.atCall[k])
 		w.atCall[k] = nil
 	}
-	if s.i < 1 {
+	if s.i < 1 || s.i > len(w.outcome) {
 		// The decoy the caller wrote into its buffer AFTER Add had returned:
 		// never registered, must never be called.
 		w.mu.Unlock()
@@ -223,8 +285,26 @@ type addOp struct {
 // register executes a plan on h the way a caller would.
 func register(h *service.SignalHandler, w *sigWorld, n int, plan []addOp) {
 	svc := make([]service.Interface, n+1)
+	w.pending = map[string][]int{}
 	for i := 1; i <= n; i++ {
-		svc[i] = &fakeSvc{w: w, i: i}
+		ty := "ptr"
+		if i-1 < len(w.stype) {
+			ty = w.stype[i-1]
+		}
+		switch ty {
+		case "val":
+			svc[i] = valSvc{w: w}
+			w.pending[ty] = append(w.pending[ty], i)
+		case "func":
+			svc[i] = funcSvc(func(context.Context) error { return w.shutdownOf(i) })
+		case "ncval":
+			svc[i] = ncSvc{id: func() int { return i }, w: w}
+		case "zst":
+			svc[i] = new(zstSvc)
+			w.pending[ty] = append(w.pending[ty], i)
+		default:
+			svc[i] = &fakeSvc{w: w, i: i}
+		}
 	}
 	decoy := &fakeSvc{w: w, i: -1}
 	buf := make([]service.Interface, 0, n+2) // reused, with spare capacity
@@ -270,7 +350,8 @@ func register(h *service.SignalHandler, w *sigWorld, n int, plan []addOp) {
 }
 
 type sigRun struct {
-	Adds    []addOp // registration plan; nil = one Add per service with a fresh slice
+	SType   []string // dynamic type per service; nil = pointers
+	Adds    []addOp  // registration plan; nil = one Add per service with a fresh slice
 	N       int
 	Outcome []string
 	Pre     []string // signals before the shutdown signal (all non-shutdown)
@@ -290,7 +371,15 @@ type sigResult struct {
 
 // runSignal executes one scripted run of a real SignalHandler.
 func runSignal(r sigRun) (res sigResult) {
-	w := &sigWorld{outcome: r.Outcome, atCall: r.AtCall}
+	w := &sigWorld{outcome: r.Outcome, atCall: r.AtCall, stype: r.SType}
+	for _, ty := range r.SType {
+		if ty == "zst" {
+			zstMu.Lock()
+			defer zstMu.Unlock()
+			zstWorld = w
+			break
+		}
+	}
 	nt := &fakeNotifier{}
 	h := service.NewSignalHandler(&service.SignalHandlerConfig{
 		SignalNotifier:  nt,
@@ -302,7 +391,14 @@ func runSignal(r sigRun) (res sigResult) {
 		return res
 	}
 	w.c = nt.c
-	w.log = append(w.log, sigEvent{Ev: "new", N: r.N, Outcome: append([]string{}, r.Outcome...), IDs: []int{}})
+	types := make([]string, r.N)
+	for i := range types {
+		types[i] = "ptr"
+		if i < len(r.SType) {
+			types[i] = r.SType[i]
+		}
+	}
+	w.log = append(w.log, sigEvent{Ev: "new", N: r.N, Outcome: append([]string{}, r.Outcome...), SType: types, IDs: []int{}})
 	plan := r.Adds
 	if plan == nil {
 		for i := 1; i <= r.N; i++ {
@@ -411,6 +507,7 @@ func (f *fakeNotifier) cRead() chan<- os.Signal { return f.c }
 type sigVec struct {
 	N       int      `json:"n"`
 	Outcome []string `json:"outcome"`
+	SType   []string `json:"stype"`
 	Adds    []addOp  `json:"adds"`
 	Script  []string `json:"script"`
 	Events  [][]any  `json:"events"`
@@ -422,7 +519,7 @@ type sigVec struct {
 // script: signals before / the shutdown signal / trailing signals with the
 // point of the shutdown at which they arrive.
 func planOf(v sigVec, grace time.Duration) (r sigRun, err error) {
-	r = sigRun{N: v.N, Outcome: v.Outcome, Adds: v.Adds, Grace: grace, AtCall: make([][]string, v.N+1)}
+	r = sigRun{N: v.N, Outcome: v.Outcome, SType: v.SType, Adds: v.Adds, Grace: grace, AtCall: make([][]string, v.N+1)}
 	ncalls, seenShut, returned := 0, false, false
 	for _, e := range v.Events {
 		kind, _ := e[0].(string)
@@ -493,6 +590,12 @@ func planKey(plan []addOp) string {
 func sigKey(v sigVec, r sigRun) string {
 	var b strings.Builder
 	fmt.Fprintf(&b, "SignalHandler services=[%s] signals=[%s]", strings.Join(v.Outcome, ","), strings.Join(v.Script, ","))
+	for _, ty := range v.SType {
+		if ty != "ptr" {
+			fmt.Fprintf(&b, " types=[%s]", strings.Join(v.SType, ","))
+			break
+		}
+	}
 	if s := planKey(v.Adds); s != "" {
 		b.WriteString(" registration=" + s)
 	}
@@ -536,7 +639,7 @@ func judgeSignal(v sigVec, got sigResult) string {
 	}
 	for _, i := range got.Order {
 		if i < 1 || i > v.N {
-			return fmt.Sprintf("a service that was never registered was shut down (what the caller wrote into its buffer after Add had returned); call order %v", got.Order)
+			return fmt.Sprintf("a service that was never registered was shut down (what the caller wrote into its buffer after Add had returned), or a registered value more often than it was registered; call order %v", got.Order)
 		}
 	}
 	for i := 1; i <= v.N; i++ {
@@ -680,8 +783,15 @@ func recordSignal(args []string) error {
 			n = rng.IntN(3)
 		}
 		r := sigRun{N: n, Grace: 2 * time.Millisecond, AtCall: make([][]string, n+1), Shut: shuts[rng.IntN(3)]}
+		kinds := []string{"ptr", "ptr", "ptr", "val", "func", "ncval", "zst"}
+		mixed := rng.IntN(3) == 0 // otherwise pointers only
 		for i := 0; i < n; i++ {
 			r.Outcome = append(r.Outcome, outs[rng.IntN(len(outs))])
+			ty := "ptr"
+			if mixed {
+				ty = kinds[rng.IntN(len(kinds))]
+			}
+			r.SType = append(r.SType, ty)
 		}
 		if r.Outcome == nil {
 			r.Outcome = []string{}
@@ -750,6 +860,9 @@ func recordSignal(args []string) error {
 			}
 			if e.Outcome == nil {
 				e.Outcome = []string{}
+			}
+			if e.SType == nil {
+				e.SType = []string{}
 			}
 			tr.Emit(e)
 		}
